@@ -32,7 +32,7 @@ fn e<T: Sem>(name: &'static str, props: &'static [&'static str], weight: u32, bu
         name,
         props,
         weight,
-        hooks: Hooks { model: None, foreign: None, zst_elems: false, budget, fixed_size: false },
+        hooks: Hooks { model: None, foreign: None, zst_elems: false, budget, fixed_size: false, bulk: false },
         gen: gen_plan::<T>,
         exec: execute::<T>,
         show: show_values::<T>,
@@ -54,7 +54,7 @@ fn w<T: Wire>(name: &'static str, props: &'static [&'static str], weight: u32, b
         name,
         props,
         weight,
-        hooks: Hooks { model: Some(T::model), foreign: Some(T::foreign), zst_elems: false, budget, fixed_size: true },
+        hooks: Hooks { model: Some(T::model), foreign: Some(T::foreign), zst_elems: false, budget, fixed_size: true, bulk: false },
         gen: gen_plan::<T>,
         exec: execute::<T>,
         show: show_values::<T>,
@@ -174,6 +174,22 @@ pub fn catalogue() -> Vec<Entry> {
         e::<BTreeMap<u8, G1P>>("BTreeMap<u8,G1Projective>", C18_10, 1, 1),
         e::<BTreeSet<u16>>("BTreeSet<u16>", C18, 1, 8),
         e::<(Vec<G2A>, Option<jub::Affine>)>("(Vec<G2Affine>,Option<EdwardsAffine>)", C18_10, 1, 1),
+        // containers inside batch-validated containers (each level has its own batch_check)
+        e::<Vec<BTreeMap<u8, G1A>>>("Vec<BTreeMap<u8,G1Affine>>", C18_10, 2, 1),
+        e::<[BTreeMap<u8, G1A>; 2]>("[BTreeMap<u8,G1Affine>;2]", C18_10, 1, 1),
+        e::<Vec<(u8, G1A)>>("Vec<(u8,G1Affine)>", C18_10, 2, 1),
+        e::<Vec<Cow<'static, G1A>>>("Vec<Cow<G1Affine>>", C18_10, 1, 1),
+        e::<LinkedList<Option<G1A>>>("LinkedList<Option<G1Affine>>", C18_10, 1, 1),
+        e::<VecDeque<[G1A; 2]>>("VecDeque<[G1Affine;2]>", C18_10, 1, 1),
+        e::<Vec<Vec<Option<G1A>>>>("Vec<Vec<Option<G1Affine>>>", C18_10, 1, 1),
+        e::<[Vec<G1A>; 2]>("[Vec<G1Affine>;2]", C18_10, 1, 1),
+        e::<Vec<Generic<G1A, Fr>>>("Vec<derive Generic<G1Affine,Fr>>", C18_10, 1, 1),
+        e::<Vec<Deep>>("Vec<derive Deep>", C18_10, 1, 1),
+        e::<Vec<Named>>("Vec<derive Named>", C18_10, 1, 1),
+        e::<BTreeMap<u8, Vec<G1A>>>("BTreeMap<u8,Vec<G1Affine>>", C18_10, 1, 1),
+        e::<Vec<BTreeMap<u8, Option<jub::Affine>>>>("Vec<BTreeMap<u8,Option<EdwardsAffine>>>", C18_10, 1, 1),
+        e::<Vec<ark_ec::pairing::PairingOutput<bls::Bls12_381>>>("Vec<PairingOutput<Bls12_381>>", C18_10, 1, 1),
+        e::<[ark_ec::pairing::PairingOutput<bls::Bls12_381>; 2]>("[PairingOutput<Bls12_381>;2]", C18_10, 1, 1),
         e::<WithConst<3>>("derive WithConst<3>", C18, 2, 8),
         e::<Deep>("derive Deep", C18_10, 2, 1),
         e::<Single>("derive Single", C18, 1, 8),
@@ -223,6 +239,15 @@ pub fn catalogue() -> Vec<Entry> {
     ];
     v.extend(crate::more::more());
     v.extend(crate::more::flags_entries());
+    const BULK: &[&str] = &[
+        "Vec<u8>", "Vec<u64>", "Vec<bool>", "String", "VecDeque<u8>", "VecDeque<u32>", "&[u8]", "Cow<Vec<u8>>", "Arc<Vec<u8>>", "Vec<(u8,u64)>",
+        "(u8,String)", "Cow<String>", "Rc<String>", "BigUint", "poly DensePolynomial<Fr>", "Vec<Fr>", "CompressedChecked<Vec<u8>>", "derive Single",
+    ];
+    for e in v.iter_mut() {
+        if BULK.contains(&e.name) {
+            e.hooks.bulk = true;
+        }
+    }
     // entries over very large fields / cubic-extension G2 cost tens of milliseconds per
     // subgroup decision: they keep weight 1 while everything else is scaled up
     const HEAVY: &[&str] = &[
@@ -232,7 +257,8 @@ pub fn catalogue() -> Vec<Entry> {
     for e in v.iter_mut() {
         if HEAVY.iter().any(|h| e.name.contains(h)) {
             e.weight = 1;
-            e.hooks.budget = 0;
+            // (containers keep a small element budget; budget 0 marks a single heavy value)
+            e.hooks.budget = if e.name.starts_with("Vec<") || e.name.starts_with('[') { 1 } else { 0 };
         } else {
             e.weight *= 6;
         }
